@@ -14,8 +14,12 @@ import (
 func TestC01(t *testing.T) {
 	rnd := vt.Rand()
 	gen := func(yield func(vt.Case)) {
-		for _, c := range allTLCCases(t) {
-			yield(fromTLC(c, "", "xor"))
+		for i, c := range allTLCCases(t) {
+			cc := fromTLC(c, "", "xor")
+			// the model prediction is recomputed by the trace spec (informational); in the
+			// thorough tier for every 4th enumerated layout only, to bound leg C's cost
+			cc["drift"] = !vt.Thorough() || i%4 == 0
+			yield(cc)
 		}
 		n := vt.Pick(300, 4000)
 		maxS := vt.Pick(60, 200)
@@ -34,7 +38,7 @@ func TestC01(t *testing.T) {
 			}
 			f := []string{"", "sum_over_time", "max_over_time"}[rnd.Intn(3)]
 			yield(vt.Case{"reps": repsJSON(reps), "ctr": false, "f": f, "src": src,
-				"targets": randomTargets(rnd, reps, 4), "drift": totalSamples(reps) <= 60, "gen": "rand"})
+				"targets": randomTargets(rnd, reps, 4), "drift": totalSamples(reps) <= 60 && (!vt.Thorough() || i%4 == 0), "gen": "rand"})
 		}
 	}
 	vt.Run(t, gen, func(vt.Case) string { return "" }, observe)
